@@ -7,6 +7,7 @@
 package evmx
 
 import (
+	"encoding/binary"
 	"fmt"
 	"math/big"
 	"math/rand"
@@ -19,6 +20,7 @@ import (
 	"github.com/dominant-strategies/go-quai/core/state"
 	"github.com/dominant-strategies/go-quai/core/types"
 	"github.com/dominant-strategies/go-quai/core/vm"
+	"github.com/dominant-strategies/go-quai/crypto"
 	"github.com/dominant-strategies/go-quai/ethdb"
 	"github.com/dominant-strategies/go-quai/log"
 	"github.com/dominant-strategies/go-quai/params"
@@ -147,6 +149,9 @@ type Case struct {
 	// InboundETX: the message is an inbound cross-chain transaction (from the zero
 	// address, value placed there beforehand, no gas purchase) as core.ApplyTransaction runs it
 	InboundETX bool `json:"inbound_etx"`
+	// Predicted: addresses a simulation of the case created; they were added to the access list (with all slots)
+	Predicted []string `json:"access_list_predicted_creations,omitempty"`
+	predicted bool
 
 	codes   [NContracts][]byte
 	to      *common.Address
@@ -292,6 +297,9 @@ func (g *gen) etxMemArg() uint64 {
 	}
 }
 
+// bigRuntime: sizes of the runtime code returned by constructors that are meant to fail at the code deposit.
+var bigRuntime = []uint64{3000, 12000, uint64(params.MaxCodeSize), uint64(params.MaxCodeSize) + 1}
+
 // emit one action into contract idx's code.
 func (g *gen) action(a *Asm, idx int) Action {
 	w := g.pick(100)
@@ -433,18 +441,36 @@ func (g *gen) action(a *Asm, idx int) Action {
 		if g.chance(50) {
 			init.Push(uint64(1 + g.pick(3))).PushBytes(Slots[g.pick(len(Slots))].Bytes()).Op(vm.SSTORE)
 		}
-		switch g.pick(5) {
+		switch g.pick(7) {
 		case 0:
 			init.Op(vm.PUSH0, vm.PUSH0, vm.REVERT)
 		case 1:
 			init.Raw([]byte{0xfe})
+		case 2, 3:
+			// returns a large (all-zero) runtime: the code deposit costs 200 gas per byte, so the
+			// creation fails at the very end, after the constructor ran (code-store out of gas),
+			// or because the runtime exceeds the size limit
+			init.Push(bigRuntime[g.pick(len(bigRuntime))]).Push(0).Op(vm.RETURN)
 		default:
 			init.Push(0).Push(0).Op(vm.MSTORE8).Push(1).Push(0).Op(vm.RETURN)
 		}
 		a.MStoreBytes(1024, init.B)
 		val := big.NewInt(int64(g.pick(3)))
 		if g.chance(50) {
-			a.PushBig(big.NewInt(int64(g.pick(1<<20)))). // salt
+			salt := int64(g.pick(1 << 20))
+			if g.chance(70) {
+				// CREATE2 does not grind: pick a salt whose address is an in-zone Quai address (when this contract is the creator)
+				h := crypto.Keccak256(init.B)
+				for i := 0; i < 20000; i++ {
+					var s32 [32]byte
+					binary.BigEndian.PutUint64(s32[24:], uint64(salt))
+					if _, err := crypto.CreateAddress2(ContractAddr(idx), s32, h, Loc).InternalAndQuaiAddress(); err == nil {
+						break
+					}
+					salt++
+				}
+			}
+			a.PushBig(big.NewInt(salt)). // salt
 									Push(uint64(len(init.B))).Push(1024).PushBig(val).Op(vm.CREATE2, vm.POP)
 			return Action{"CREATE2", []string{val.String(), fmt.Sprint(len(init.B))}}
 		}
@@ -650,6 +676,18 @@ func GenCase(r *rand.Rand, id int, o GenOpts) *Case {
 	case x < 8:
 		c.to = nil // creation: init code = code of a generated contract followed by nothing
 		code, plan := g.contract(0)
+		if g.chance(35) {
+			// constructor with effects that returns a large runtime: fails at the code deposit
+			ctor := new(Asm)
+			plan = nil
+			for i := 0; i < 1+g.pick(4); i++ {
+				plan = append(plan, g.action(ctor, 0))
+			}
+			n := bigRuntime[g.pick(len(bigRuntime))]
+			ctor.Push(n).Push(0).Op(vm.RETURN)
+			plan = append(plan, Action{"RETURN", []string{"0", fmt.Sprint(n)}})
+			code = ctor.B
+		}
 		c.data = code
 		c.Plan["init"] = plan
 	case x < 14:
@@ -776,8 +814,47 @@ var (
 	sharedEtxDB state.Database
 )
 
-// Run executes the case on a fresh state.
+// Run executes the case on a fresh state. Contract creation demands that the
+// address about to be created is in the transaction's access list; a wallet
+// obtains it by simulating the transaction first. Run does the same: when the
+// case can create contracts it is first executed with access-list enforcement
+// off, the addresses that run created are added to the access list, and the
+// case is then executed for real (enforcement on, monitored).
 func Run(c *Case, logger *log.Logger) *Exec {
+	if c.Access != "none" && !c.predicted && c.creates() {
+		c.predicted = true
+		dry := runOnce(c, logger, true)
+		seen := map[common.AddressBytes]bool{}
+		for _, t := range c.access {
+			seen[t.Address.Bytes20()] = true
+		}
+		for _, a := range dry.P.Created {
+			if !seen[a.Bytes20()] {
+				seen[a.Bytes20()] = true
+				c.access = append(c.access, types.AccessTuple{Address: a, StorageKeys: Slots})
+				c.Predicted = append(c.Predicted, a.Hex())
+			}
+		}
+	}
+	return runOnce(c, logger, false)
+}
+
+// creates reports whether the case's programs contain a creation.
+func (c *Case) creates() bool {
+	if c.to == nil {
+		return true
+	}
+	for _, plan := range c.Plan {
+		for _, a := range plan {
+			if a.Kind == "CREATE" || a.Kind == "CREATE2" {
+				return true
+			}
+		}
+	}
+	return false
+}
+
+func runOnce(c *Case, logger *log.Logger, bypassAccessList bool) *Exec {
 	ex := &Exec{Case: c, Logger: logger}
 	// one database and one state.Database (64 MB code cache each) per process;
 	// states are content-addressed so cases do not interfere, lockup records are
@@ -866,6 +943,7 @@ func Run(c *Case, logger *log.Logger) *Exec {
 	}
 	ex.T = newTracer(ex)
 	ex.P = newProxy(ex, st)
+	ex.P.bypassAccessList = bypassAccessList
 	cfg := params.ChainConfig{ChainID: big.NewInt(1337), Location: Loc}
 	evm := vm.NewEVM(bctx, core.NewEVMTxContext(msg), ex.P, &cfg, vm.Config{Debug: true, Tracer: ex.T}, batch)
 	ex.EVM = evm
@@ -912,6 +990,10 @@ func (ex *Exec) known() []common.Address {
 	}
 	for _, a := range AllAddrs() {
 		add(a)
+	}
+	// addresses the simulation created are in the access list from the start: known from the start
+	for _, t := range ex.Case.access {
+		add(t.Address)
 	}
 	if ex.P != nil {
 		for _, a := range ex.P.touchedList() {
